@@ -4,8 +4,11 @@ import hashlib, json, os
 from . import core, httpgen as hg, grpc_gen as gg
 
 INVS = "AcceptedOnlyIfNumbered WellFormed NotInMessage LocationPartition DeliveredIntact InvokedIffValid ResultIntact ResponsePartition ClientRejectsInvalidResult"
-DEVIATIONS = ["int.narrowed_to_32_bits", "tags.oneof_members_unchecked", "tags.unchecked_with_metadata", "tags.nested_types_unchecked",
-              "validate.absent_collection_length", "validate.oneof_members_skipped", "validate.required_oneof_unchecked", "validate.metadata_list_elements_skipped"]
+DEVIATIONS = ["int.narrowed_to_32_bits", "validate.absent_collection_length",
+              "tags.oneof_members_unchecked", "tags.unchecked_with_metadata", "tags.nested_types_unchecked"]
+# the family in which each deviation shows (vacuity runs)
+DEV_FAMILY = {"int.narrowed_to_32_bits": "req", "validate.absent_collection_length": "res", "tags.oneof_members_unchecked": "wf",
+              "tags.unchecked_with_metadata": "wf", "tags.nested_types_unchecked": "wf"}
 
 
 def gen_vectors(ctx, fam, deviations="{}", label=None):
@@ -27,7 +30,7 @@ def sample_shapes(vectors, frac, seed):
     return keep
 
 
-def run_family(ctx, fam, vectors, per_design=40):
+def run_family(ctx, fam, vectors, per_design=40, rng=None, label=None):
     """Drive the vectors through real generated code. Returns (cases, pipeline). A case is
     dict(id, v, design, method, accepted, gen, table, verdict_ok, events, obs)."""
     shapes, index = [], {}
@@ -37,7 +40,7 @@ def run_family(ctx, fam, vectors, per_design=40):
             index[k] = len(shapes)
             shapes.append(gg.shape_of(v))
     designs, where = gg.pack_designs(shapes, per_design)
-    pl = gg.Pipeline(ctx, "grpc-" + fam)
+    pl = gg.Pipeline(ctx, "grpc-" + (label or fam))
     # a design goa refuses or fails to generate takes all its methods down: find those designs first and give
     # each of their methods a design of its own, so that the failure is attributed to one method shape
     pl.generate(designs)
@@ -69,7 +72,9 @@ def run_family(ctx, fam, vectors, per_design=40):
                 "uncompilable": pl.bad_methods.get((di, mname)), "unusable": pl.failed.get(di)}
         cases.append(case)
         if run_needed and di in bins and (di, mname) not in pl.bad_methods:
-            scen.setdefault(di, []).append(gg.scenario_for(v, case["id"], "d%d/%s" % (di, svc), gometh, mname))
+            sc, sent, rsent = gg.scenario_for(v, case["id"], "d%d/%s" % (di, svc), gometh, mname, rng)
+            scen.setdefault(di, []).append(sc)
+            case["sent"], case["rsent"] = sent, rsent
             meta[case["id"]] = case
     if run_needed:
         events = pl.run_all(bins, scen)
@@ -77,7 +82,7 @@ def run_family(ctx, fam, vectors, per_design=40):
             if sid not in events:
                 raise core.Infra("runner produced no observation for scenario %s" % sid)
             case["events"] = events[sid]
-            case["obs"] = gg.project(case["v"], events[sid], case["mname"])
+            case["obs"] = gg.project(case["v"], events[sid], case["mname"], case["sent"], case["rsent"])
     pl.designs = designs
     return cases, pl
 
@@ -94,7 +99,7 @@ def short_case(c):
     v = c["v"]
     o = c.get("obs") or {}
     return {"vector": {k: v[k] for k in ("fam", "pa", "ra", "stream", "tagmode", "withmd", "pv", "rv", "allow")},
-            "accepted": c["accepted"], "evalErrors": c["evalErrors"], "gen": c["gen"], "genDetail": c["genDetail"],
+            "sent": c.get("sent"), "rsent": c.get("rsent"), "accepted": c["accepted"], "evalErrors": c["evalErrors"], "gen": c["gen"], "genDetail": c["genDetail"],
             "descriptorOK": c["descriptorOK"], "descriptorError": c["descriptorError"], "table": c["table"],
             "observed": {k: o[k] for k in o if not k.endswith("_raw")}, "delivered_raw": o.get("delivered_raw"), "returned_raw": o.get("returned_raw"),
             "wire_raw": o.get("wire_raw"), "rwire_raw": o.get("rwire_raw")}
@@ -195,22 +200,39 @@ def case_key(v):
     return core.canon([gg.shape_of(v), v["pv"], v["rv"]])
 
 
+def obs_class(a, sent, x):
+    """ObsClass of Trace_GRPCTransport.tla."""
+    if not hg.is_absent(x) and gg.emptyish(a, x) and hg.is_absent(sent):
+        return "absent"
+    if hg.is_absent(x) and not hg.is_absent(sent) and gg.emptyish(a, sent):
+        return "sent"
+    return abstract_class(a, sent, x)
+
+
+def mech_loc(loc, a, sent):
+    return "-" if gg.emptyish(a, sent) else loc
+
+
 def mech_sig(v):
+    """What the mechanism of the model did, in the vocabulary of the recorded events."""
     m = v["mech"]
     sig = {"accepted": m["accepted"]}
     if not m["accepted"]:
         return sig
     sig["table"] = gg.table_key(m["proto"], types=False)
     sig["types"] = gg.table_key(m["proto"])
+    sig["rpcs"] = m["rpcs"]
     sig["descok"] = m["descok"]
     if v["fam"] == "wf" or not m["descok"]:
         return sig
+    sig["where"] = mech_loc(m["where"], v["pa"], v["pv"])
     sig["invoked"] = m["invoked"]
     if m["invoked"]:
-        sig["delivered"] = abstract_class(v["pa"], v["pv"], m["delivered"])
+        sig["delivered"] = obs_class(v["pa"], v["pv"], m["delivered"])
+        sig["rwhere"] = mech_loc(m["rwhere"], v["ra"], v["rv"])
         sig["cerr"] = m["cerr"]
         if m["cerr"] == "result":
-            sig["returned"] = abstract_class(v["ra"], v["rv"], m["returned"])
+            sig["returned"] = obs_class(v["ra"], v["rv"], m["returned"])
     return sig
 
 
@@ -221,16 +243,50 @@ def obs_sig(c):
         return sig
     sig["table"] = gg.table_key(c["table"]["proto"], types=False) if c["table"] else None
     sig["types"] = gg.table_key(c["table"]["proto"]) if c["table"] else None
+    sig["rpcs"] = c["table"]["rpcs"] if c["table"] else None
     sig["descok"] = c["descriptorOK"]
     if v["fam"] == "wf" or not c["descriptorOK"] or o is None:
         return sig
+    sig["where"] = gg.loc_of(o["where"], v["pa"], v["pv"])
     sig["invoked"] = o["invoked"]
     if o["invoked"]:
         sig["delivered"] = o["delivered"]
+        sig["rwhere"] = gg.loc_of(o["rwhere"], v["ra"], v["rv"])
         sig["cerr"] = o["cerr"]
         if o["cerr"] == "result":
             sig["returned"] = o["returned"]
     return sig
+
+
+def trace_events(c, devs):
+    """The case as a sequence of trace events for Trace_GRPCTransport.tla (None: the case has no complete record)."""
+    v, o, t = c["v"], c["obs"], c["table"]
+    evs = [{"ev": "reset", "pa": v["pa"], "ra": v["ra"], "stream": v["stream"], "tagmode": v["tagmode"], "withmd": v["withmd"],
+            "pv": v["pv"], "rv": v["rv"], "devs": devs, "case": c["id"]},
+           {"ev": "eval", "accepted": c["accepted"]}]
+    if not c["accepted"]:
+        return evs
+    if t is None:
+        return None
+    for f in t["proto"]:
+        evs.append(dict(f, ev="proto_field"))
+    for r in t["rpcs"]:
+        evs.append(dict(r, ev="rpc"))
+    evs.append({"ev": "descriptor_ok", "ok": c["descriptorOK"]})
+    if v["fam"] == "wf" or not c["descriptorOK"]:
+        return evs
+    if o is None or o["anomalies"] or o["where"] is None:
+        return None
+    sig = obs_sig(c)
+    evs.append({"ev": "client_encode", "where": sig["where"]})
+    if not o["invoked"]:
+        evs.append({"ev": "server_decode", "kind": "error", "errname": o["errname"]})
+        return evs
+    evs.append({"ev": "server_decode", "kind": "payload", "class": o["delivered"]})
+    evs.append({"ev": "invoke"})
+    evs.append({"ev": "server_encode", "where": sig["rwhere"]})
+    evs.append({"ev": "client_decode", "kind": o["cerr"], "class": o.get("returned") or "-"})
+    return evs
 
 
 class Explainer:
